@@ -164,7 +164,7 @@ pub fn judge(_part: &str, case: &Case, tally: &mut Tally) -> Verdict {
 pub fn gen_random(src: &mut Src, _i: usize) -> Case {
     let cols = match src.below(10) {
         0 => 80,
-        1 => 100,
+        1 => *src.pick(&[100usize, 255, 256, 257, 300, 520]),
         2 => *src.pick(&[8usize, 16, 24, 32, 40]),
         3 => *src.pick(&[9usize, 17, 25, 33]),
         _ => src.range(1, 40),
@@ -250,6 +250,17 @@ pub fn run(env: &Env) -> PropRun {
         &|i| Some(Case::new(TRIPLE_SET[i / (ts * ts)], 1, None).resize(TRIPLE_SET[(i / ts) % ts], 1).resize(TRIPLE_SET[i % ts], 1)),
         &j,
     ));
+    // magnitudes: widths around 255/256/512/1024 and far resizes
+    let wide: Vec<usize> = vec![250, 254, 255, 256, 257, 258, 264, 300, 511, 512, 513, 1000, 1023, 1024, 1025, 1100];
+    let nw = wide.len();
+    parts.push(run_part(env, "enum-wide", nw + nw * nw, true, "fresh widths {250..1100 boundary set} and every resize between them", &|i| {
+        if i < nw {
+            Some(Case::new(wide[i], 1, None))
+        } else {
+            let k = i - nw;
+            Some(Case::new(wide[k / nw], 1, None).resize(wide[k % nw], 1))
+        }
+    }, &j));
     parts.push(random_part(env, "random-sequences", env.tier.scale(100_000, 30), &gen_random, &j));
     PropRun {
         parts,
